@@ -543,6 +543,9 @@ func spokVer(s hshape) string {
 	return fmt.Sprintf(" %x", core.Hash64(string(b)))
 }
 
+// unknownModel stands for "this command-less task may or may not have been recorded by a run that stopped with an error".
+const unknownModel = "<unknown>"
+
 // noFiles is the snapshot of a task none of whose dependencies denotes a file ("" = no snapshot at all).
 const noFiles = "<no files>"
 
@@ -808,6 +811,11 @@ func judgeRun(s hshape, pre hstate, o hobs, st *hstate, c02 c02mode) hverdict {
 			// a task without commands leaves no trace in the side-effect log: whether it was run or
 			// skipped is only known from the report, and without one it is not judged
 			if !haveRep {
+				// (it may have been reached and recorded before the run stopped: from here on what it
+				// last succeeded on is not known until it is seen to run again)
+				if o.Exit != 0 || errored || o.Killed {
+					st.Model[name] = unknownModel
+				}
 				continue
 			}
 			exec = !rep
@@ -851,12 +859,14 @@ func judgeRun(s hshape, pre hstate, o hobs, st *hstate, c02 c02mode) hverdict {
 		// C01: a skip requires the inputs of the last success
 		if skippedNow {
 			v.Skips++
-			if last == "" {
+			if last == unknownModel {
+				// not judged: see above
+			} else if last == "" {
 				bad("C01", "skip-needs-earlier-success", "task %s was skipped but has not completed successfully since the cache was last removed (inputs now {%s})", name, snap)
 			} else if last != snap {
 				bad("C01", "skip-needs-equal-inputs", "task %s was skipped but its inputs {%s} differ from those of its last success {%s}", name, snap, last)
 			}
-			if (last == "" || last != snap) && pre.Forced[name] != "" && !o.Op.Force {
+			if last != unknownModel && (last == "" || last != snap) && pre.Forced[name] != "" && !o.Op.Force {
 				bad("C14", "forced-run-does-not-damage-cache", "task %s took part in a forced run earlier and is now skipped although its inputs {%s} differ from those of its last successful run {%s}", name, snap, last)
 			}
 			if o.Op.Force {
